@@ -7,6 +7,7 @@
 From Coq Require Import Reals List Lra.
 From CB Require Import Base.Vec3 Model.C17_ClampLink Proofs.C17_ClampLink.
 From CB Require Import Gen.C17.Flags.
+From CB Require Import Gen.C17.Source Proofs.C17_SourceEq.
 Import ListNotations.
 Open Scope R_scope.
 
@@ -266,6 +267,80 @@ Proof.
 Qed.
 
 (** ** the hypotheses are satisfiable *)
+(** ** the model of the clamp position functions and of the links is the source
+
+    Gen/C17/Source.v: the translation (harness/translate_np.py, regenerated from the working tree on every run, fail
+    closed) of functions.unit_vector / angle_between / point_to_line_distance / mirror_matrix / mirror, of the position
+    functions of LineClamp, PlaneClamp and RadialClamp (the closures their constructors hand to ClampBase as [function])
+    and of TranslationLink.transform, SymmetryLink.transform / _get_follower, RotationLink.transform / _get_radius /
+    _get_height.  [Some y] = read in exact real arithmetic the call returns y; [None] = no real-number reading
+    (unit_vector of the zero vector, division by a zero radius: numpy's nan / inf).  np.random.random(3) of PlaneClamp
+    is the input [r]; functions.rotate (scipy.linalg.expm) is an input FUNCTION of the translated RadialClamp function
+    and RotationLink.transform, instantiated here with the model's [rotate]: that the code's rotate is that function
+    stays tied by the sampled interval correspondence.  Last four conjuncts: [C17_line], [C17_plane], [C17_symmetry]
+    and [C17_translation] as theorems about the translated source. *)
+Definition C17_source_is_model_stmt : Prop :=
+  (forall tol v, v <> vzero -> src_unit_vector tol v = Some (unit v))
+  /\ (forall tol v1 v2, v1 <> vzero -> v2 <> vzero -> src_angle_between tol v1 v2 = Some (angle_between v1 v2))
+  /\ (forall tol o d p, d <> vzero -> src_point_to_line_distance tol o d p = Some (point_to_line_distance o d p))
+  /\ (forall tol b p n o, n <> vzero -> src_mirror tol p n o = Some (fst (mirror b p n o)))
+  /\ (forall tol pos p1 p2 t, p1 <> p2 -> src_LineClamp_function tol pos p1 p2 t = Some (line_pos p1 p2 t))
+  /\ (forall tol pos p t, src_LineClamp_function tol pos p p t = None)
+  /\ (forall tol pos point n u v r, cross r n <> vzero ->
+        src_PlaneClamp_function tol pos point n u v r = Some (plane_pos point n r (u, v)))
+  /\ (forall tol p0 c n t, n <> vzero -> radial_radius p0 c n <> 0 ->
+        src_RadialClamp_function tol p0 c n t rotate = Some (radial_pos p0 c n t))
+  /\ (forall tol l f v, src_TranslationLink_transform tol l v = Some (tl_follower (tl_step (l, f, v) Update)))
+  /\ (forall tol b l f n o, n <> vzero ->
+        src_SymmetryLink_transform tol l n o = Some (sl_follower (sl_step b (l, f, (n, o)) Update))
+        /\ src_SymmetryLink_get_follower tol l n o = Some (fst (mirror b l n o)))
+  /\ (forall tol l o a r0 f0 p,
+        src_RotationLink_get_height tol l o a r0 f0 p = Some (rl_height o a p)
+        /\ src_RotationLink_get_radius tol l o a r0 f0 p = Some (rl_radius o a p))
+  /\ (forall tol l o a r0 f0, r0 <> vzero -> rl_radius o a l <> vzero ->
+        src_RotationLink_transform tol l o a r0 f0 rotate
+        = Some (rl_follower (rl_step (l, f0, {| rc_origin := o; rc_axis := a; rc_r0 := r0; rc_f0 := f0 |}) Update)))
+  /\ (forall tol l o a r0 f0 rot, rl_radius o a l = vzero -> src_RotationLink_transform tol l o a r0 f0 rot = None)
+  /\ (forall tol pos p1 p2 t, p1 <> p2 ->
+        exists q, src_LineClamp_function tol pos p1 p2 t = Some q
+                  /\ cross (vsub q p1) (vsub p2 p1) = vzero /\ norm (vsub q p1) = Rabs t)
+  /\ (forall tol pos point n u v r, cross r n <> vzero ->
+        exists q, src_PlaneClamp_function tol pos point n u v r = Some q /\ dot (vsub q point) n = 0)
+  /\ (forall tol l n o, n <> vzero ->
+        src_SymmetryLink_transform tol l n o = Some (reflect l n o) /\ is_mirror_image l (reflect l n o) n o)
+  /\ (forall tol l0 f0 ops,
+        let s := tl_run (tl_init l0 f0) ops in
+        src_TranslationLink_transform tol (tl_leader s) (tl_vector s) = Some (vadd (tl_leader s) (vsub f0 l0))).
+
+Theorem C17_source_is_model : C17_source_is_model_stmt.
+Proof.
+  split; [exact src_unit_vector_eq|]. split; [exact src_angle_between_eq|]. split; [exact src_point_to_line_distance_eq|].
+  split; [exact src_mirror_eq|]. split; [exact src_LineClamp_function_eq|]. split; [exact src_LineClamp_function_degenerate|].
+  split; [intros tol pos point n u v r H; exact (src_PlaneClamp_function_eq tol pos point n u v r (plane_dom_of_cross n r H))|].
+  split; [exact src_RadialClamp_function_eq|]. split; [exact src_TranslationLink_transform_eq|].
+  split; [exact src_SymmetryLink_transform_eq|]. split; [exact src_RotationLink_radius_eq|].
+  split; [exact src_RotationLink_transform_eq|]. split; [exact src_RotationLink_transform_on_axis|].
+  split; [|split; [|split]].
+  - intros tol pos p1 p2 t H. exists (line_pos p1 p2 t). split; [exact (src_LineClamp_function_eq tol pos p1 p2 t H)|].
+    destruct (C17_line p1 p2 H) as [L _]. exact (L t).
+  - intros tol pos point n u v r H. exists (plane_pos point n r (u, v)).
+    split; [exact (src_PlaneClamp_function_eq tol pos point n u v r (plane_dom_of_cross n r H))|].
+    destruct (C17_plane point n r) as [P _]. exact (P (u, v)).
+  - intros tol l n o H.
+    pose proof (C17_symmetry false l l n o [] H) as K. cbv zeta in K.
+    change (sl_run false (sl_init false l l n o) []) with (l, l, (n, o)) in K.
+    change (sl_leader (l, l, (n, o))) with l in K. destruct K as (M & E & _).
+    destruct (src_SymmetryLink_transform_eq tol false l l n o H) as [T _].
+    split; [rewrite T, E; reflexivity | rewrite <- E; exact M].
+  - intros tol l0 f0 ops s.
+    rewrite (src_TranslationLink_transform_eq tol (tl_leader s) (tl_follower s) (tl_vector s)). f_equal.
+    replace (tl_leader s, tl_follower s, tl_vector s) with s by (destruct s as [[a b] c]; reflexivity).
+    exact (proj1 (C17_translation l0 f0 ops)).
+Qed.
+
+Example C17_source_is_model_hyp : (0, 0, 1) <> vzero /\ radial_radius (1, 0, 0) (0, 0, 0) (0, 0, 1) <> 0.
+Proof. exact radial_hyp_sat. Qed.
+
 Example C17_line_hyp : (0, 0, 0) <> ((1, 2, 3) : vec).
 Proof. intro E. inversion E. lra. Qed.
 
@@ -297,3 +372,4 @@ Print Assumptions C17_rotation_about_axis.
 Print Assumptions C17_rotation_corr_form.
 Print Assumptions C17_symmetry.
 Print Assumptions C17_leader_unaltered.
+Print Assumptions C17_source_is_model.
